@@ -213,6 +213,20 @@ pub fn replay(args: &Args) {
                     runp!("Vec<f64>", vf, |x: f64| if x.is_nan() { NULL } else { x as i64 });
                     runp!("Vec<Option<f64>>", vo, |x: Option<f64>| x.map(|y| y as i64).unwrap_or(NULL));
                     runp!("Vec<Option<i32>>", voi, |x: Option<i32>| x.map(|y| y as i64).unwrap_or(NULL));
+                    // element types without a null: every request that needs no padding (k + 1 <= len) must
+                    // work; padding with a null is impossible there (DESIGN 5.8)
+                    if nullfree && k + 1 <= s.len() {
+                        let vi: Vec<i32> = enc_vec(&s);
+                        runp!("Vec<i32>", vi, |x: i32| x as i64);
+                        let vl: Vec<i64> = enc_vec(&s);
+                        runp!("Vec<i64>", vl, |x: i64| x);
+                        if all_of(s.iter(), |x| *x >= 0) {
+                            let vu: Vec<usize> = s.iter().map(|x| *x as usize).collect();
+                            runp!("Vec<usize>", vu, |x: usize| x as i64);
+                            let v8: Vec<u8> = s.iter().map(|x| *x as u8).collect();
+                            runp!("Vec<u8>", v8, |x: u8| x as i64);
+                        }
+                    }
                     clear_log();
                     runp!("Spy<f64>", sp, |x: f64| if x.is_nan() { NULL } else { x as i64 });
                     spy_faults(&mut rep, "vpartition", &key, "Spy<f64>", v);
